@@ -56,6 +56,16 @@ def gen_wallet(tier):
     })
 
 
+def enum_long(tier):
+    """Records with more rows than any small fixed-size structure holds."""
+    cfgs = [(0, [0, 258], False, "seed"), (1, [5, 305], True, "mnemonic")]
+    if tier != "quick":
+        cfgs += [(44, [0, 300], False, "xprv"), (0, [1000, 1260], True, "seed"), (H - 1, [0, 257], False, "mnemonic"), (3, [255, 515], True, "xprv")]
+    for j, (acct, iv, testnet, src) in enumerate(cfgs):
+        yield {"source": src, "xver": 44, "entropy": bytes([j + 1]) * 16, "pw": "", "seed": bytes([j + 7]) * 32, "testnet": testnet,
+               "calls": [(acct, iv), (acct, [0, 2])], "same_account": True}
+
+
 def build(case):
     PW = _impl()
     src, testnet = case["source"], case["testnet"]
@@ -264,5 +274,7 @@ def clauses():
                "echo; JSON round trip; Wasabi ExtPubKey at m/84'/0'/0' and 8-digit master fingerprint; non-trivial = "
                "testnet, account != 0, start > 0, 0/1 rows, e < s, or more than one call",
                gen=gen_wallet, nontrivial=nt_wallet, classes=classes_wallet, key=key_wallet,
+               enum=enum_long, enum_desc="long records: 258..300 rows per section (quick 2, thorough 6 wallets), also "
+                                         "followed by a short record on the same wallet",
                n={"quick": 480, "thorough": 8000}, shards={"quick": 16, "thorough": 16}),
     ]
